@@ -274,10 +274,13 @@ impl SwiftField for Field55ThirdReimbursementInstitution {
                 let field = Field55D::parse(value)?;
                 Ok(Field55ThirdReimbursementInstitution::D(field))
             }
-            _ => {
-                // No variant specified, fall back to default parse behavior
+            None => {
+                // No option letter given: the option is inferred from the content
                 Self::parse(value)
             }
+            Some(other) => Err(ParseError::InvalidFormat {
+                message: format!("Field 55 has no option {}", other),
+            }),
         }
     }
 
